@@ -530,6 +530,7 @@ type c43Worker struct {
 }
 
 var c43Workers sync.Map // *vk.Local -> *c43Worker
+var c43ExtRuns sync.Map // completed buffer -> result of really running the external command (shared: forks are slow)
 
 func c43GetWorker(c *vk.Ctx, l *vk.Local, setup string) *c43Worker {
 	if w, ok := c43Workers.Load(l); ok {
@@ -1236,7 +1237,19 @@ func c43RunVarCase(l *vk.Local, w *c43Worker, order int64, wi int, nw c43NameWor
 			w.nj["not_judged_variable_candidate_text_not_understood"]++
 			continue
 		}
-		detail := fmt.Sprintf("ns-%s,typed-%s,candidate-%s", c43NsKind(ns), map[bool]string{false: "bare", true: "quoted"}[nw.quoted], map[string]string{"b": "bare", "s": "quoted", "d": "quoted", "e": "empty"}[c43InsKind(ins)])
+		detail := "other"
+		switch {
+		case ns != "" && nw.quoted:
+			detail = "quoted-typed-name-with-namespace"
+		case ns != "" && c43InsKind(ins) != "b":
+			detail = "quoted-name-after-namespace"
+		case nw.quoted:
+			detail = "quoted-typed-name"
+		case wr.sigil && c43InsKind(ins) != "b":
+			detail = "quoted-name-after-sigil"
+		case c43InsKind(ins) != "b":
+			detail = "quoted-name"
+		}
 		nb := buf[:f] + ins + buf[t:]
 		want := append([]string{}, wr.before...)
 		if swallowed {
@@ -1249,11 +1262,15 @@ func c43RunVarCase(l *vk.Local, w *c43Worker, order int64, wi int, nw c43NameWor
 				want = append(want, tag[1:len(tag)-1])
 			} else {
 				// a builtin variable or an external command: the completed buffer has to compile
-				var cerr error
-				pan := vk.Try(func() { _, _, cerr = w.ev.Check(parse.Source{Name: "c43", Code: nb}, nil) })
-				var perr error
-				pan2 := vk.Try(func() { _, perr = parse.Parse(parse.Source{Name: "c43", Code: nb}, parse.Config{}) })
-				if pan != "" || pan2 != "" || cerr != nil || perr != nil {
+				ck, hit := w.cache["\x00check:"+nb]
+				if !hit {
+					var perr, cerr error
+					ck.pan = vk.Try(func() { perr, _, cerr = w.ev.Check(parse.Source{Name: "c43", Code: nb}, nil) })
+					ck.outs = []any{perr, cerr}
+					w.cache["\x00check:"+nb] = ck
+				}
+				perr, cerr, pan, pan2 := ck.outs[0], ck.outs[1], ck.pan, ""
+				if pan != "" || cerr != nil || perr != nil {
 					c43Report(order, "variable-insert-does-not-resolve:"+detail, fmt.Sprintf("%s: choosing candidate %s (insert %q over [%d,%d)) gives the buffer %q, which does not compile: %v %v %s%s",
 						desc, shown, ins, f, t, nb, perr, cerr, pan, pan2), replay)
 				}
@@ -1408,12 +1425,26 @@ func c43RunCmdCase(l *vk.Local, w *c43Worker, order int64, wi int, word c43NameW
 			c43Report(order, "insert-value-differs-from-candidate:command", fmt.Sprintf("%s: candidate %q inserts %q, which evaluates to %q", desc, shown, ins, v), replay)
 			continue
 		}
-		if abut {
-			continue
+		if abut || strings.Contains(v, "/") {
+			continue // a path: file name completion in command position is part F
+		}
+		if !word.quoted && !c43KnownBare(word.text) {
+			continue // a raw word with metacharacters is not one word: only the inserted text itself is judged
 		}
 		nb := buf[:f] + ins + buf[t:]
 		if swallowed {
 			nb += wr.closer
+		}
+		if f == t && f != dot {
+			if _, ok := fns[v]; ok {
+				rr := w.evalCached(nb)
+				got, sok := c43Strs(rr.outs)
+				if rr.pan != "" || rr.err != nil || !sok || !c43EqStrs(got, []string{fns[v]}) {
+					c43Report(order, "completed-buffer-value-differs:inserted-away-from-cursor", fmt.Sprintf("%s: choosing candidate %q (insert %q over [%d,%d)) gives the buffer %q, which evaluates to %q, error %v %s; expected the function to run and output %q",
+						desc, shown, ins, f, t, nb, rr.outs, rr.err, rr.pan, fns[v]), replay)
+				}
+			}
+			continue
 		}
 		if tag, ok := fns[v]; ok {
 			nmine++
@@ -1425,12 +1456,19 @@ func c43RunCmdCase(l *vk.Local, w *c43Worker, order int64, wi int, word c43NameW
 			}
 		} else if tag, ok := exts[v]; ok {
 			nmine++
-			key := "\x00bytes:" + nb
-			rr, hit := w.cache[key]
-			if !hit {
-				_, bs, e, pan := w.evalBytes(nb)
+			var rr c43EvalRes
+			if x, hit := c43ExtRuns.Load(nb); hit {
+				rr = x.(c43EvalRes)
+			} else {
+				vs, bs, e, pan := w.evalBytes(nb)
+				if len(vs) == 1 && bs == "" {
+					// inside an output capture the bytes written become a value
+					if sv, ok := vs[0].(string); ok {
+						bs = sv + "\n"
+					}
+				}
 				rr = c43EvalRes{[]any{bs}, e, pan}
-				w.cache[key] = rr
+				c43ExtRuns.Store(nb, rr)
 			}
 			if rr.pan != "" || rr.err != nil || rr.outs[0].(string) != tag+"\n" {
 				c43Report(order, "command-insert-does-not-run-candidate:external", fmt.Sprintf("%s: choosing candidate %q (insert %q over [%d,%d)) gives the buffer %q, which writes %q, error %v %s; expected the external command to run and write %q",
@@ -1481,7 +1519,12 @@ func c43Subsets(n, k int) [][]int {
 func TestVerifC43(t *testing.T) {
 	vk.Run(t, "C43", "exploration", func(c *vk.Ctx) {
 		maxSub := vk.Pick(c, 2, 3)
-		c.Rule("tbd")
+		c.Rule(fmt.Sprintf("part F: every directory whose entries are a subset of <=%d of the 12 core names %s, the full core set, and one big directory with %d further hostile names (control characters, invalid UTF-8, every metacharacter, hidden and hostile-named directories, symlinks), each built for real and made cwd and $HOME in turn; for every directory x directory prefix (none ./ ../D/ absolute ~/ sub/ ~/sub/) x every rune prefix of every entry name (plus two non-matching ones) x every typing style (bare, '.. open/closed, \".. open/closed, directory part outside the quotes, quoted directory + bare rest) x every cursor position in the word (long directory prefixes: only start, next to the base name, middle) x %d code contexts (argument, redirection, command head; nested in captures, lists, braces, lambdas, pipelines, var/set); part V: every rune prefix of every qualified variable name of a fixture (16 global, 2 namespaces + nested + hostile-named namespace, 5 $E: and 16 $e: names) x bare/'../\".. open/closed x every cursor position x 6 contexts, and the same words as arguments of set/tmp/del; part C: every rune prefix of every function (18 + namespace), external (16 in $PATH, also with e:) and a few builtin command names x raw/'../\".. x every cursor position x 6 head contexts. class = (part, context, directory prefix kind / namespace kind, typing style, cursor at start/inside/end, completion kind offered, number of candidates bucket, quoting kinds among the inserted texts)",
+			maxSub, c43EntNames(c43Core[:12]), len(c43Ext), len(c43Wraps)))
+		c.Assume("the value of a word is observed by evaluating `put <word>` (and the completed buffer as a whole) with the real Evaler; the candidate is identified by the text shown in the menu (CompletionItem.ToShow)",
+			"expected file candidates follow pkg/edit/completion.d.elv (edit:complete-filename): entries of the directory part, hidden ones iff the base name starts with a dot, filtered by prefix, directories with trailing / and no space, other files with a space as code suffix; in command position non-executable files and symlinks are optional",
+			"not judged (counted in the evidence): positions where no completion is offered; the candidate set when the typed bareword contains characters whose bareword status depends on the context, when the cursor is in an earlier part of a compound word or at the start of a following word; trailing slash of symlinks to directories; quote style when a single-quoted word is completed with an unprintable name or a bare one with a name needing quotes; which variables are offered; builtin commands are not run",
+			"file system = tmpfs under $VERIF_SCRATCH; environment cleared for parts V/C ($PATH = fixture directory)")
 		scratch := os.Getenv("VERIF_SCRATCH")
 		if scratch == "" {
 			t.Fatal("VERIF_SCRATCH not set")
@@ -1629,6 +1672,9 @@ func TestVerifC43(t *testing.T) {
 			w := c43GetWorker(c, l, setup)
 			k := int64(0)
 			for wi := range c43VWraps {
+				if c43VWraps[wi].sigil && vwords[i].quoted {
+					continue // $@'...' is not a syntax of the language
+				}
 				for _, pd := range c43NameDots(vwords[i].text) {
 					l.Begin(vwords[i].text)
 					c43RunVarCase(l, w, 1<<60+int64(i)<<16+k, wi, vwords[i], pd, tags)
